@@ -19,6 +19,9 @@ NUMS = ["0", "1", "2", "5", "16", "17", "-1", "-2", "127", "128", "255", "256", 
         "007", "+5", "-0", "1234", "99999"]
 HEXES = ["00", "80", "0100", "ab", "abcd", "0x12", "ffff", "0000000001", "deadbeef00", "a", "abc", "1a", "00" * 20, "0080", "81"]
 
+# pushes at the boundaries of the push encodings (75/76, 255/256 bytes): exec must encode them as the script would
+HEXES += ["ab" * 75, "cd" * 76, "ef" * 255, "12" * 256, "34" * 254, "56" * 520]
+
 def tok_hex(t):
     return t.encode().hex()
 
@@ -83,4 +86,30 @@ def main(tier):
             k = next((j for j, (a, b) in enumerate(zip(il, ml)) if a != b), min(len(il), len(ml)))
             chk.violation("exec-mismatch", "state after exec differs from applying the same operations with the interpreter step (model)",
                           {"stream": name, "case": c, "impl": il[max(0, k - 1):k + 1], "model_eq_spec": ml[max(0, k - 1):k + 1]})
+    # the interactive command itself (fn_exec in front of Instance::eval): exec typed when the script has run to its end, or in a session
+    # without a script, applies its operations like any other exec - same stack / alt stack as the script with those operations appended
+    import ptyrun, vlib, os, concurrent.futures
+    binary = os.path.join(vlib.build("plain"), "btcdeb")
+    rng = chk.rng
+    scen = []
+    for _ in range(6 if chk.tier == "quick" else 60):
+        base = rng.choice([["OP_2", "OP_3", "OP_ADD"], ["OP_1"], ["OP_5", "OP_DUP", "OP_TOALTSTACK"], ["OP_1", "OP_IF", "OP_7", "OP_ENDIF"], []])
+        ops = rng.choice([["4", "OP_ADD"], ["OP_DUP", "OP_TOALTSTACK"], ["OP_DEPTH"], ["9", "OP_SWAP", "OP_DROP"], ["OP_FROMALTSTACK"], ["2", "3", "OP_ADD"]])
+        scen.append((base, ops))
+    def run(sc):
+        base, ops = sc
+        a = ptyrun.repl(binary, (["[" + " ".join(base) + "]"] if base else []), ["step"] * (len(base) + 2) + ["exec " + " ".join(ops), "stack", "altstack"], timeout=8.0)
+        b = ptyrun.repl(binary, ["[" + " ".join(base + ops) + "]"], ["step"] * (len(base) + len(ops) + 2) + ["stack", "altstack"], timeout=8.0)
+        return a, b
+    st = chk.streams.setdefault("exec-at-end(impl only, pty)", {"cases": 0, "diffs": 0, "known": 0})
+    with concurrent.futures.ThreadPoolExecutor(8) as ex:
+        for (base, ops), (a, b) in zip(scen, ex.map(run, scen)):
+            st["cases"] += 1; chk.evaluations += 1
+            ta = [o for c_, o in a[1] if c_ in ("stack", "altstack")]; tb = [o for c_, o in b[1] if c_ in ("stack", "altstack")]
+            if ta != tb or None in ta:
+                st["diffs"] += 1
+                if st["diffs"] <= 3:
+                    chk.violation("exec-at-end", "exec typed at the end of the script (or without a script) does not apply its operations like the script would",
+                                  {"stream": "exec-at-end", "case": ["pty"], "binary": "btcdeb", "argv": (["[" + " ".join(base) + "]"] if base else []),
+                                   "commands": ["step"] * (len(base) + 2) + ["exec " + " ".join(ops), "stack", "altstack"], "with_exec": ta, "appended_to_script": tb})
     return chk.finish(RULE)
